@@ -22,6 +22,9 @@ NONADAPTIVE = {
     'bounded_eigenvector': lambda T, k, s: P.BoundedEigenvector(['a', 'b'], BND2, jump_interval=k, jump_interval_duration=T),
     'isotropic_solid_angle': lambda T, k, s: P.IsotropicSolidAngle('a', 'b', jump_interval=k, jump_interval_duration=T),
 }
+WIDE_BOX = {'a': (-3.0, 5.0), 'b': (0.0, 0.01)}
+# a proposal far wider than one of its bounds (std / width = 100): hundreds of rejected draws per jump
+NONADAPTIVE['wide_normal_in_narrow_box'] = lambda T, k, s: P.BoundedNormal(['a', 'b'], WIDE_BOX, jump_interval=k, jump_interval_duration=T)
 EXTRA = {
     'at_adaptive_normal_componentwise':
         lambda T, k, start: P.ATAdaptiveNormal(['a', 'b'], adaptation_duration=T, componentwise=True, start_step=start, jump_interval=k),
@@ -79,7 +82,8 @@ def td_proposal(cfg):
     else:
         tds = [P.ATAdaptiveNormal([c], adaptation_duration=T) for c in comps]
     if cfg['birth'] == 'uniform':
-        births = [P.UniformBirth([c], {c: (0., 4.)}) for c in comps]
+        lo_b, hi_b = cfg.get('birth_bounds', (0., 4.))       # may be narrower than the prior support (0, 4)
+        births = [P.UniformBirth([c], {c: (lo_b, hi_b)}) for c in comps]
     elif cfg['birth'] == 'normal':
         births = [P.NormalBirth([c], {c: 1.0}, {c: 1.0}) for c in comps]
     else:
@@ -104,7 +108,8 @@ def gen(rng, kind=None, allow_annealer=True):
         cfg['family'] = rng.choice(sorted(ALL))
     elif kind == 'td':
         cfg.update(td_n=rng.choice([2, 3, 4]), td_family=rng.choice(['normal', 'adaptive_normal', 'ss_adaptive_normal', 'at_adaptive_normal', 'bounded_normal']),
-                   birth=rng.choice(['uniform', 'normal', 'lognormal']), successive=rng.random() < 0.5)
+                   birth=rng.choice(['uniform', 'normal', 'lognormal']), successive=rng.random() < 0.5,
+                   birth_bounds=rng.choice([(0., 4.), (0., 4.), (1., 3.), (0.5, 2.0)]))
     return cfg
 
 
@@ -193,6 +198,8 @@ def start_position(cfg, rng=None):
                 'b': numpy.array([rng.choice([1, 2, 5]) for _ in range(n)], dtype=int).reshape(shape)}
     out = {'a': numpy.array([round(rng.uniform(0.5, 1.5), 3) for _ in range(n)]).reshape(shape),
            'b': numpy.array([round(rng.uniform(0.3, 0.7), 3) for _ in range(n)]).reshape(shape)}
+    if cfg['kind'] == 'family' and cfg['family'] == 'wide_normal_in_narrow_box':
+        out['b'] = out['b'] * 0.01
     if cfg['kind'] in ('joint', 'default', 'partial'):
         out['c'] = numpy.array([round(rng.uniform(0.3, 2.0), 3) for _ in range(n)]).reshape(shape)
     return out
